@@ -218,6 +218,42 @@ func vpH_C16_embedded_types() {
 	vpReach("end")
 }
 
+// a list held at a single-item position, with members of every kind: members with an id become
+// their id, links and id-less objects stay what they were, no IRI appears that was not there
+func vpH_C16_list_in_single() {
+	tname := []string{"Object", "Activity", "Question", "Actor"}[vpChoice(4)]
+	ti := vpTypeIndex(tname)
+	positions := vpC16Positions(tname)
+	pos := positions[vpChoice(len(positions))]
+	link := &Link{Type: MentionType, Href: "https://h.ex/l"}
+	linkID := &Link{ID: "https://h.ex/lid", Type: MentionType, Href: "https://h.ex/l2"}
+	idless := &Object{Type: NoteType, Name: NaturalLanguageValues{{Ref: NilLangRef, Value: Content("n")}}}
+	withID := &Object{ID: "https://h.ex/w", Type: NoteType}
+	list := ItemCollection{IRI("https://h.ex/i1"), link, idless, withID, linkID}
+	x := vpNew(ti)
+	vpSetField(x, 0, 0, 'i')
+	vpSetItemField(x, pos, list)
+	cell := tname + "." + pos
+	FlattenProperties(x)
+	got, _ := vpGetItemField(x, pos).(ItemCollection)
+	vpAssert("list-in-single/still-a-list-of-five/"+cell, len(got) == 5)
+	if len(got) == 5 {
+		vpAssert("list-in-single/iri-kept/"+cell, IsIRI(got[0]) && got[0].GetLink() == "https://h.ex/i1")
+		vpAssert("list-in-single/link-kept/"+cell, got[1] == Item(link))
+		vpAssert("list-in-single/idless-kept/"+cell, got[2] == Item(idless))
+		// (the library flattens the members of a list in attributedTo, replies, likes and shares; a list
+		// in one of an activity's own positions is kept as it is - the statement speaks of embedded
+		// objects, and either reading leaves no member changed into something else)
+		if pos == "AttributedTo" || pos == "Replies" || pos == "Likes" || pos == "Shares" {
+			vpAssert("list-in-single/object-became-id/"+cell, IsIRI(got[3]) && got[3].GetLink() == "https://h.ex/w")
+		} else {
+			vpAssert("list-in-single/object-kept-or-its-id/"+cell, got[3] == Item(withID) || (IsIRI(got[3]) && got[3].GetLink() == "https://h.ex/w"))
+		}
+		vpAssert("list-in-single/link-with-id-kept/"+cell, got[4] == Item(linkID))
+	}
+	vpReach("end")
+}
+
 func vpH_C16_single_Activity()             { vpC16Single("Activity") }
 func vpH_C16_single_IntransitiveActivity() { vpC16Single("IntransitiveActivity") }
 func vpH_C16_single_Question()             { vpC16Single("Question") }
